@@ -604,7 +604,7 @@ void recursion_run(const Json& c, const Plan& p, Out& o) {
     std::vector<std::vector<S>> rc;
     ref_all<S>(p, ry, re, rc);
     // premise (reference side): the recursion itself is well conditioned on this input -- the same textbook recursion in plain double
-    // stays within rel/10 of the long-double one.  Otherwise rounding alone may exceed the tolerance: counted as a discard.
+    // stays within rel/20 of the long-double one.  Otherwise rounding alone may exceed the tolerance: counted as a discard.
     std::vector<Sd> dy, de;
     std::vector<std::vector<Sd>> dc;
     ref_all<Sd>(p, dy, de, dc);
@@ -618,7 +618,7 @@ void recursion_run(const Json& c, const Plan& p, Out& o) {
             for (size_t j = 0; j < rc[f].size(); ++j)
                 sens = std::max(sens, std::hypot(re_of(rc[f][j]) - re_of(dc[f][j]), im_of(rc[f][j]) - im_of(dc[f][j])) / std::max(cmax, ld(1e-300L)));
     }
-    if (!refs_finite || !(sens <= rel / 10)) {
+    if (!refs_finite || !(sens <= rel / 20)) {
         o.discard = true;
         return;
     }
@@ -714,6 +714,20 @@ void converge_run(const Json& c, const Plan& p, Out& o) {
         mis /= hn;
         o.metric("exact-LS misalignment/1e-7 (premise)", double(mis / 1e-7L));
         if (!(mis <= 1e-7L)) { o.discard = true; return; }
+    }
+    // premise (NLMS): the horizon 16N/(mu(2-mu)) + 200 comes from the independence theory (mean e^-16 = 1.1e-7); the tap-delay-line
+    // regressors are not independent and the realised misalignment has a heavy upper tail (measured sd of ln up to 1.2 at N = 64).
+    // The textbook recursion in long double on the very same realisation must itself be below 2.5e-7 (4x under the claim);
+    // NLMS is contractive, so a correct double-precision implementation tracks it to ~1e-12.
+    if (p.alg == A_NLMS) {
+        RefLms<S> ref(N, p.mu, p.leak, true);
+        S yy, ee;
+        for (int k = 0; k < p.H; ++k) ref.step(mkS<S>(p.x[size_t(k)]), mkS<S>(p.d[size_t(k)]), false, yy, ee);
+        ld mis = 0;
+        for (int j = 0; j < N; ++j) mis += std::pow(re_of(ref.c[size_t(j)]) - ld(p.h[size_t(j)].real()), 2) + std::pow(im_of(ref.c[size_t(j)]) - ld(p.h[size_t(j)].imag()), 2);
+        mis /= hn;
+        if (!(mis <= 2.5e-7L)) { o.discard = true; return; }
+        o.metric("textbook-NLMS misalignment/2.5e-7 (premise)", double(mis / 2.5e-7L));
     }
     Ad<T> f(p);
     int k0 = 0;
@@ -912,7 +926,7 @@ static void stream_gen(Ctx& ctx) {
                   .set("fmode", 4).set("nlock", r.range(2, 6)).set("lock0", 0).set("relock", r.range(0, 1)).set("H", 6 * n + 40).set("seed", (long long)(r.next() >> 16));
                 ctx.eval(c);
             }
-    ctx.rc("random", ctx.by_tier(900000, 9000000), [&]() {
+    ctx.rc("random", ctx.by_tier(900000, 5400000), [&]() {
         const int alg = pick_alg_stream(), cx = pick(0, 1), n = pick(0, 3) == 0 ? pick(2, 64) : 1 + pick_log(1, 63);
         Json c = gen_case(K_STREAM, alg, cx, n, ctx);
         const int hmax = alg == A_RLS ? std::max(64, std::min(1500, 400000 / (n * n))) : 1500;
@@ -943,7 +957,7 @@ static void recursion_gen(Ctx& ctx) {
                   .set("fmode", 4).set("nlock", r.range(2, 4)).set("lock0", 0).set("relock", 0).set("H", 200).set("seed", (long long)(r.next() >> 16));
                 ctx.eval(c);
             }
-    ctx.rc("random", ctx.by_tier(400000, 4000000), [&]() {
+    ctx.rc("random", ctx.by_tier(400000, 2400000), [&]() {
         const int alg = pick(0, 2), cx = pick(0, 1), n = pick(0, 3) == 0 ? pick(2, 64) : 1 + pick_log(1, 63);
         Json c = gen_case(K_RECURSION, alg, cx, n, ctx);
         c.set("H", pick(0, 1) == 0 ? pick(1, 200) : 200).set("seed", (long long)seed64());
@@ -958,8 +972,8 @@ static void converge_check(const Json& c, Out& o) {
     if (p.cx) converge_run<cmplx_t>(c, p, o); else converge_run<real_t>(c, p, o);
 }
 static void converge_gen(Ctx& ctx) {
-    const double budget = ctx.by_tier(2.0e7, 2.0e8);   // RLS: H * N^2
-    ctx.rc("random", ctx.by_tier(20000, 200000), [&]() {
+    const double budget = ctx.by_tier(2.0e7, 6.0e7);   // RLS: H * N^2
+    ctx.rc("random", ctx.by_tier(20000, 100000), [&]() {
         const int alg = pick(1, 2), cx = pick(0, 1);
         int n = pick(0, 2) == 0 ? pick(2, 64) : 1 + pick_log(1, 63);
         Json c = gen_case(K_CONVERGE, alg, cx, n, ctx);
@@ -989,7 +1003,7 @@ static void rlsls_gen(Ctx& ctx) {
               .set("H", 4 * n + 20).set("npts", 4).set("seed", (long long)(r.next() >> 16));
             ctx.eval(c);
         }
-    ctx.rc("random", ctx.by_tier(240000, 2400000), [&]() {
+    ctx.rc("random", ctx.by_tier(240000, 1440000), [&]() {
         const int n = pick(0, 3) == 0 ? pick(2, 64) : 1 + pick_log(1, 63);
         Json c = gen_case(K_LS, A_RLS, 0, n, ctx);
         const int hmax = std::min(300, std::max(6 * n, 40));
